@@ -299,7 +299,9 @@ def decSpec : SExp → Option GetScheduler.Spec
   | .list [.sym "none"] => some .none
   | .list [.sym "callable", n] => do pure (.callable (← n.toNat?))
   | .list [.sym "name", .str s] => some (.name s)
-  | .list [.sym "executor", w] => do pure (.executor (← w.toOptInt?).map Int.toNat)
+  | .list [.sym "executor", w] => do
+    let w ← w.toOptInt?
+    pure (.executor (w.map Int.toNat))
   | .list [.sym "other"] => some .other
   | _ => none
 
